@@ -85,6 +85,8 @@ pub struct Ctx {
     pub progress: Option<Progress>,
     pub beat: Arc<AtomicU64>,
     pub extra: BTreeMap<String, Json>,
+    events: Option<std::io::BufWriter<std::fs::File>>,
+    pub events_written: u64,
 }
 
 pub const MAX_REPLAYS_PER_KEY: u64 = 3;
@@ -116,6 +118,26 @@ impl Ctx {
             progress,
             beat,
             extra: BTreeMap::new(),
+            events: None,
+            events_written: 0,
+        }
+    }
+    /// M10: append one event (a JSON object) to this worker's event log `<out>.events.jsonl`,
+    /// read afterwards by the offline checker; without --out events go to stdout (replay mode)
+    pub fn event(&mut self, ev: &Json) {
+        use std::io::Write;
+        self.events_written += 1;
+        match &self.out {
+            Some(o) => {
+                if self.events.is_none() {
+                    let f = std::fs::File::create(format!("{o}.events.jsonl")).expect("create event log");
+                    self.events = Some(std::io::BufWriter::new(f));
+                }
+                let w = self.events.as_mut().unwrap();
+                serde_json::to_writer(&mut *w, ev).expect("write event");
+                w.write_all(b"\n").expect("write event");
+            }
+            None => println!("{}", serde_json::to_string(ev).unwrap()),
         }
     }
     pub fn quick(&self) -> bool {
@@ -258,7 +280,11 @@ impl Ctx {
             "extra": self.extra,
         })
     }
-    pub fn finish(&self) {
+    pub fn finish(&mut self) {
+        use std::io::Write;
+        if let Some(w) = self.events.as_mut() {
+            w.flush().expect("flush event log");
+        }
         let j = self.to_json();
         match &self.out {
             Some(o) => {
